@@ -305,41 +305,52 @@ Definition prune_lt (d : nat) (da : list (string * nat)) := filter (fun p => Nat
 Definition add_new (x : string) (l : list string) : list string := if mem x l then l else l ++ [x].
 Definition union (a b : list string) : list string := fold_left (fun acc x => add_new x acc) b a.
 
-(* Read-before-write analysis of one method, callees inlined (fuel bounds the call depth).
+(* Read-before-write analysis of one method given summaries of its callees.
    da: fields definitely assigned (whole-field `recv.f = e`) on the path so far, each with the
    nesting depth it was assigned at; an entry dies when its region ends (an event at a smaller
    depth, or a region start B at its depth).  Result: fields read/updated/appended while not
    definitely assigned, and the fields definitely assigned at every non-error return.
    Error returns (E) are left out of the second component: every caller in the analysed
-   types propagates the error and abandons the call. *)
-Fixpoint analyse (fuel : nat) (t : mtable) (m : string) (da0 : list string)
-  : list string * list string :=
-  match fuel with
-  | O => (["<out-of-fuel>"], [])
-  | S fuel' =>
-    match mlookup m t with
-    | None => ([("<unknown-method:" ++ m ++ ">")%string], [])
-    | Some evs =>
-      let step (st : list (string * nat) * list string * option (list string)) (e : ev) :=
-        let '(da, rbw, exits) := st in
-        let '(k, n, d) := e in
-        let da := prune_le d da in
-        if String.eqb k "B" then (prune_lt d da, rbw, exits)
-        else if String.eqb k "W" then ((n, d) :: da, rbw, exits)
-        else if String.eqb k "R" || String.eqb k "G" || String.eqb k "U" || String.eqb k "A" then
-          (da, (if mem n (da_names da) then rbw else add_new n rbw), exits)
-        else if String.eqb k "C" then
-          let '(r', o') := analyse fuel' t n (da_names da) in
-          (map (fun f => (f, d)) o' ++ da, union rbw r', exits)
-        else if String.eqb k "X" then
-          (da, rbw, Some (match exits with None => da_names da | Some x => inter x (da_names da) end))
-        else (da, rbw, exits) in
-      let '(_, rbw, exits) := fold_left step evs (map (fun f => (f, O)) da0, [], None) in
-      (rbw, match exits with Some x => x | None => [] end)
-    end
+   types propagates the error and abandons the call.
+   A callee contributes its own read-before-write set minus what the caller has definitely
+   assigned at the call, and its definitely-assigned set. *)
+Definition msummary := list (string * (list string * list string)).
+
+Fixpoint slookup (m : string) (t : msummary) : list string * list string :=
+  match t with
+  | [] => ([("<unknown-method:" ++ m ++ ">")%string], [])
+  | (n, e) :: r => if String.eqb n m then e else slookup m r
   end.
 
-Definition rbw_of (t : mtable) (m : string) : list string := fst (analyse 40 t m []).
+Definition analyse1 (sm : msummary) (evs : list ev) : list string * list string :=
+  let step (st : list (string * nat) * list string * option (list string)) (e : ev) :=
+    let '(da, rbw, exits) := st in
+    let '(k, n, d) := e in
+    let da := prune_le d da in
+    if String.eqb k "B" then (prune_lt d da, rbw, exits)
+    else if String.eqb k "W" then ((n, d) :: da, rbw, exits)
+    else if String.eqb k "R" || String.eqb k "G" || String.eqb k "U" || String.eqb k "A" then
+      (da, (if mem n (da_names da) then rbw else add_new n rbw), exits)
+    else if String.eqb k "C" then
+      let '(r', o') := slookup n sm in
+      (map (fun f => (f, d)) o' ++ da,
+       union rbw (filter (fun f => negb (mem f (da_names da))) r'), exits)
+    else if String.eqb k "X" then
+      (da, rbw, Some (match exits with None => da_names da | Some x => inter x (da_names da) end))
+    else (da, rbw, exits) in
+  let '(_, rbw, exits) := fold_left step evs ([], [], None) in
+  (rbw, match exits with Some x => x | None => [] end).
+
+(* k rounds of simultaneous re-analysis: exact for call depth < k; deeper chains (and
+   recursion) leave the marker "<out-of-fuel>" in the result. *)
+Fixpoint analyse_all (k : nat) (t : mtable) : msummary :=
+  match k with
+  | O => map (fun me => (fst me, (["<out-of-fuel>"], []))) t
+  | S k' => let sm := analyse_all k' t in map (fun me => (fst me, analyse1 sm (snd me))) t
+  end.
+
+Definition rbw_of (t : mtable) (m : string) : list string := fst (slookup m (analyse_all 30 t)).
+Definition da_out_of (t : mtable) (m : string) : list string := snd (slookup m (analyse_all 30 t)).
 
 (* direct (non-transitive) events of one kind *)
 Definition ev_names (k : string) (evs : list ev) : list string :=
